@@ -513,6 +513,41 @@ func TestVerifC16Tab(t *testing.T) {
 	}
 	tr.emit(vC16TabHistory(r, 0, "mixed", big+big/3, big, false))
 	tr.emit(vC16BigGrow())
+	if thorough {
+		tr.emit(vC16GrowSweep(22))
+	} else {
+		tr.emit(vC16GrowSweep(20))
+	}
+}
+
+// Sweep over the table lengths that fit in memory (2^3 .. 2^21, thorough 2^22): a
+// table of 2^p slots grows exactly when its size reaches 3*2^p/4, to 2^(p+1)
+// slots with growAt 3*2^(p+1)/4 — the integer rule that Proofs_float.v proves equal
+// to the code's float64 expression for every length up to 2^61.  Go side only.
+func vC16GrowSweep(maxP int) map[string]any {
+	goFail := ""
+	for p := 3; p <= maxP && goFail == ""; p++ {
+		n := 1 << p
+		m := NewUInt64Map[uint64](3 * n / 4) // int(float64(3n/4) / 0.75) = n slots
+		if p == 3 {
+			m = NewUInt64Map[uint64](0)
+		}
+		if len(m.data) != n || m.growAt != 3*n/4 {
+			goFail = fmt.Sprintf("NewUInt64Map(%d): %d slots, growAt %d; expected %d slots, growAt %d", 3*n/4, len(m.data), m.growAt, n, 3*n/4)
+			break
+		}
+		for k := uint64(1); len(m.data) == n; k++ {
+			if m.size > 3*n/4 {
+				goFail = fmt.Sprintf("table of %d slots holds %d keys without having grown (growAt %d)", n, m.size, m.growAt)
+				break
+			}
+			m.Put(k*0x9E3779B97F4A7C15|1, k)
+		}
+		if goFail == "" && (len(m.data) != 2*n || m.growAt != 3*(2*n)/4 || m.size != 3*n/4+1 || m.mask != 2*n-1) {
+			goFail = fmt.Sprintf("growth from %d slots: %d slots, growAt %d, size %d; expected %d slots, growAt %d, size %d", n, len(m.data), m.growAt, m.size, 2*n, 3*(2*n)/4, 3*n/4+1)
+		}
+	}
+	return map[string]any{"k": "go-grow-sweep", "go_fail": goFail, "nontrivial": true, "desc": map[string]any{"powers": fmt.Sprintf("3..%d", maxP)}}
 }
 
 // growth from 2^20 slots on takes the "1.5x then round up" route: Go side only
